@@ -1,4 +1,5 @@
 import PeliteModel.Lemmas.Cross
+import PeliteModel.Thm.C02Arith
 /-!
 C01 — memory safety: every reference the safe API returns lies inside the buffer and is aligned for
 its type; no operation performs an unchecked access outside the buffer (`Out.ub`).
@@ -96,5 +97,137 @@ theorem C01_section_bytes (v : View) (s : Sec) (hs : s.InRange) (r : Ref) (h : v
 /-- no modelled operation of the core ever performs an unchecked out-of-range access -/
 theorem C01_no_ub (v : View) (a : Addr) (min align : Nat) (s : String) : v.at a min align ≠ .ub s := by
   exact v.at_ne_ub a min align s
+
+/-! ### views with an overridden base address, and every `View` value -/
+
+/-- `slice` / `read` on a view whose base address was overridden (`PeView::set_base_address`, any base,
+also one that makes `base + SizeOfImage` wrap): the result is inside the buffer, aligned as requested
+and holds the requested number of bytes.  No range hypothesis on the address or the arguments. -/
+theorem C01_at_any_base (f : Fmt) (k : Kind) (img : Img) (v : View) (hv : fromBytes f k img = .ok v)
+    (base : Nat) (a : Addr) (min align : Nat) (ref : Ref) (h : (v.setBase base).at a min align = .ok ref) :
+    RefOK img ref ∧ min ≤ ref.len ∧ ref.align = align := by
+  obtain ⟨-, rfl⟩ := (fromBytes_ok_iff _ _ _ _).1 hv
+  exact View.at_sound _ a min align ref h
+
+/-- the same for every `View` value whatsoever (the section fields are `u32` because they are decoded
+from the buffer; nothing else is needed) — `C01_slice_read` without its hypotheses -/
+theorem C01_at_every_view (v : View) (a : Addr) (min align : Nat) (ref : Ref) (h : v.at a min align = .ok ref) :
+    RefOK v.img ref ∧ min ≤ ref.len ∧ ref.align = align :=
+  v.at_sound a min align ref h
+
+/-- typed reads on every view (in particular after `set_base_address`) -/
+theorem C01_typed_any_base (v : View) (a : Addr) :
+    (∀ size align ref, v.derva a size align = .ok ref → RefOK v.img ref) ∧
+    (∀ size align len ref, v.dervaSlice a size align len = .ok ref → RefOK v.img ref) ∧
+    (∀ size align s ref, 1 ≤ size → v.dervaSliceS a size align s = .ok ref → RefOK v.img ref) ∧
+    (∀ ref, v.dervaCStr a = .ok ref → RefOK v.img ref) ∧
+    (∀ ref, v.dervaWStr a = .ok ref → RefOK v.img ref) := by
+  refine ⟨?_, ?_, ?_, ?_, ?_⟩
+  · intro size align ref h
+    obtain ⟨s, hs, rfl⟩ := (C05_derva v a size align ref).1 h
+    obtain ⟨⟨hb, hal⟩, hm, hsa⟩ := v.at_sound a size align s hs
+    rw [hsa] at hal
+    exact ⟨by simp only; omega, hal⟩
+  · intro size align len ref h
+    obtain ⟨-, s, hs, rfl⟩ := (C05_derva_slice v a size align len ref).1 h
+    obtain ⟨⟨hb, hal⟩, hm, hsa⟩ := v.at_sound a (size * len) align s hs
+    rw [hsa] at hal
+    exact ⟨by simp only; omega, hal⟩
+  · intro size align sen ref hsz h
+    cases hat : v.at a 0 align with
+    | ok s =>
+      obtain ⟨n, rfl, hn, -⟩ := (C05_derva_slice_s v a size align sen hsz s hat).1 ref h
+      obtain ⟨⟨hb, hal⟩, -, hsa⟩ := v.at_sound a 0 align s hat
+      rw [hsa] at hal
+      rw [Nat.succ_mul] at hn
+      exact ⟨by simp only; omega, hal⟩
+    | _ =>
+      unfold View.dervaSliceS View.dervaSliceF at h
+      rw [hat] at h
+      cases h
+  · intro ref h
+    cases hat : v.at a 0 1 with
+    | ok s =>
+      obtain ⟨⟨hb, -⟩, -, -⟩ := v.at_sound a 0 1 s hat
+      unfold View.dervaCStr cstrFromBytes at h
+      rw [hat] at h
+      simp only at h
+      cases hf : findNul v.b s.off s.len 0 with
+      | none => rw [hf] at h; cases h
+      | some n =>
+        rw [hf] at h
+        cases h
+        obtain ⟨-, h2, -, -⟩ := findNul_some _ _ _ hf
+        exact ⟨by simp only; omega, Nat.mod_one _⟩
+    | _ =>
+      unfold View.dervaCStr at h
+      rw [hat] at h
+      cases h
+  · intro ref h
+    cases hat : v.at a 2 2 with
+    | ok s =>
+      obtain ⟨⟨hb, hal⟩, -, hsa⟩ := v.at_sound a 2 2 s hat
+      rw [hsa] at hal
+      obtain ⟨h1, rfl⟩ := ((C05_derva_wstr v a s hat).1 ref).1 h
+      exact ⟨by simp only; omega, hal⟩
+    | _ =>
+      unfold View.dervaWStr at h
+      rw [hat] at h
+      cases h
+
+/-! ### the unchecked accesses, as the driver runs them -/
+
+/-- In the checked model (`Model/PeChecked.lean`, the one the correspondence run executes) every
+`&*(p as *const T)`, `slice::from_raw_parts`, `get_unchecked`, `ptr::read_unaligned` of the typed reads
+and of the conversions goes through `rawRef`, which answers `ub` when the access is outside the
+buffer or misaligned.  That branch is never taken: for every view, address, size, length, sentinel and
+every power-of-two `usize` alignment with `size % align = 0` (true of every Rust type). -/
+theorem C01_checked_no_ub (v : View) (a : Addr) (size align len sentinel : Nat) (hb : v.b.size < 4294967296)
+    (hs : 1 ≤ size) (hsz : size < 18446744073709551616) (hsa : size % align = 0)
+    (ha : align < 18446744073709551616) (hp : isPow2 align = true) (s : String) :
+    v.atChk a size align ≠ .ub s ∧ v.dervaChk a size align ≠ .ub s ∧ v.dervaCopyChk a size ≠ .ub s ∧
+    v.dervaIntoChk a len ≠ .ub s ∧ v.dervaSliceChk a size align len ≠ .ub s ∧
+    v.dervaSliceSChk a size align sentinel ≠ .ub s ∧ v.dervaCStrChk a ≠ .ub s ∧ v.dervaWStrChk a ≠ .ub s := by
+  refine ⟨?_, (C02_derva_never_panics v a size align ha hp).ne_ub s, (C02_dervaCopy_never_panics v a size).ne_ub s,
+    (C02_dervaInto_never_panics v a len).ne_ub s, (C02_dervaSlice_never_panics v a size align len ha hp).ne_ub s,
+    (C02_dervaSliceS_never_panics v a size align sentinel hb hs hsz hsa ha hp).ne_ub s,
+    (C02_dervaCStr_never_panics v a hb).ne_ub s, (C02_dervaWStr_never_panics v a).ne_ub s⟩
+  rw [C02_at_checked_eq v a size align ha]
+  exact v.at_ne_ub a size align s
+
+/-- `to_view` / `to_file`: `get_unchecked(..SizeOfHeaders)` on both buffers stays inside them -/
+theorem C01_convert_checked_no_ub (f : Fmt) (k : Kind) (img : Img) (v : View) (hv : fromBytes f k img = .ok v)
+    (s : String) : v.toViewChk ≠ .ub s ∧ v.toFileChk ≠ .ub s :=
+  ⟨(C02_toView_never_panics f k img v hv).ne_ub s, (C02_toFile_never_panics f k img v hv).ne_ub s⟩
+
+/-! ### non-vacuity -/
+
+/-- a PE32+ file the model — and the real `PeFile::from_bytes` — accepts, through the format specific and
+the agnostic constructor; all header references inside its 256 bytes -/
+example : fromBytes .pe64 .file demo64Img = .ok demo64File ∧ wrapFromBytes .file demo64Img = .ok demo64File ∧
+    demo64File.ntHeaders = ⟨64, 136, 4⟩ ∧ demo64File.sectionHeaders = ⟨200, 40, 4⟩ ∧
+    demo64File.headersImage = ⟨0, 240, 1⟩ ∧ RefOK demo64Img demo64File.sectionHeaders := by
+  refine ⟨demo64File_ok, C07_wrap_complete _ _ _ _ demo64File_ok, ?_⟩
+  decide +kernel
+
+/-- `C01_slice_read` / `C01_typed`: hypotheses met by the PE32+ file (rva 260 < 2^32, va < 2^64) and the
+PE32 view; the references handed out -/
+example : (260 : Nat) < 4294967296 ∧ (0x140000104 : Nat) < demo64File.fmt.vaLimit ∧
+    demo64File.at (.rva 260) 0 2 = .ok ⟨244, 12, 2⟩ ∧ demo64File.at (.va 0x140000104) 0 2 = .ok ⟨244, 12, 2⟩ ∧
+    RefOK demo64File.img ⟨244, 12, 2⟩ ∧
+    demo64File.dervaSliceS (.rva 260) 2 2 0xffff = .ok ⟨244, 4, 2⟩ ∧ demo64File.dervaCStr (.rva 256) = .ok ⟨240, 3, 1⟩ ∧
+    demo64File.sectionBytes ⟨0, 0, 24, 256, 16, 240, 0⟩ = .ok ⟨240, 16, 1⟩ := by
+  decide +kernel
+
+/-- `C01_at_any_base`: the PE32 view relocated to 0x10000, and to a base where `base + SizeOfImage`
+wraps the 32-bit address space -/
+example : fromBytes .pe32 .view demoImg = .ok demoView ∧
+    (demoView.setBase 0x10000).at (.va 0x100b8) 0 1 = .ok ⟨184, 16, 1⟩ ∧
+    (demoView.setBase 0x10000).at (.va 0x4000b8) 0 1 = .err .bounds ∧
+    (demoView.setBase 0xffffff80).at (.va 0xffffff90) 4 4 = .ok ⟨16, 184, 4⟩ ∧
+    (demoView.setBase 0x10000).dervaCStr (.va 0x100b8) = .ok ⟨184, 3, 1⟩ := by
+  refine ⟨(fromBytes_ok_iff _ _ _ _).2 ⟨by decide +kernel,
+    by rw [show imageBaseField .pe32 demoImg.bytes = 0x400000 by decide +kernel]; rfl⟩, ?_⟩
+  decide +kernel
 
 end Pelite.Pe
